@@ -2,6 +2,16 @@ import Cactus.Lemmas.Final
 import Cactus.Lemmas.Basic
 /-!
 # C05 — Weak handles observe destruction exactly
+
+What is proved here:
+* one-step lemmas: `C05_upgrade_dead_none`, `C05_upgradeField_dead_none`, `C05_upgrade_live_some`,
+  `C05_wcounts_dead`, `C05_weakDrop`;
+* whole histories, no hypothesis on the history, every state including mid-teardown:
+  `C05_weak_keeps_allocation`, `C05_value_present_iff_not_dead`, and the statement itself
+  `C05_upgrade_iff_value_not_destroyed`;
+* example: a history after which the program holds a Weak to a collected group member and a Weak to
+  a survivor; both directions of the equivalence instantiated.
+Not modelled: a Weak that never had an allocation (`Weak::new()`): no action of the model creates one.
 -/
 namespace Cactus
 open State
@@ -53,7 +63,8 @@ theorem C05_weakDrop (s : State) (o : Nat) (ob : Obj) (hc : s.cell o = some ob) 
   | zero => simp [hw, State.setObj, State.emit]
   | succ w => simp [hw, State.setObj, (cell_some_get s o ob hc).2]
 
-/-- non-vacuity -/
+/-- a Weak selector is interpreted modulo the length of the Weak table (the non-vacuity examples
+for the property itself are at the end of the file) -/
 example : nthMod ({ wroots := [0] } : State).wroots 5 = some 0 := by decide
 
 
@@ -135,5 +146,69 @@ theorem C05_upgrade_iff_value_not_destroyed {s : State} (h : Reachable s) (he : 
         cases n with
         | zero => simp [hs, Strong.isDead] at hd
         | succ n => exact (C05_upgrade_live_some s fh fw w o ob n hw hcell hs).1
+
+/-! ## Non-vacuity: both directions of `C05_upgrade_iff_value_not_destroyed` on one history
+
+A two-cycle `0 ↔ 1` built with `link`, a Weak to its member 0, a survivor (object 2) with a Weak;
+the program drops its handles to 1 and 0, the second `drop` collects {0, 1}.  In the final state
+the program holds the Weak handles `[0, 2]`: one to a collected group member, one to a survivor. -/
+
+def weakObserveHistory : List (Op × List Nat) :=
+  [(.act .new, []), (.act .new, []),
+   (.act (.clone 1), []), (.act (.link 2 0), []),     -- 0 → 1
+   (.act (.clone 0), []), (.act (.link 2 1), []),     -- 1 → 0
+   (.act (.downgrade 0), []),                         -- Weak to group member 0
+   (.act .new, []), (.act (.downgrade 2), []),        -- survivor 2 and a Weak to it
+   (.act (.drop 1), []),                              -- program's handle to 1
+   (.act (.drop 0), [])]                              -- program's handle to 0: collects {0, 1}
+
+theorem weakObserveHistory_noErr : (run weakObserveHistory).err = none := by decide +kernel
+
+/-- the final state: both members destroyed, 1's allocation released, 0's kept by the Weak -/
+example : let s := run weakObserveHistory
+    s.roots = [2] ∧ s.wroots = [0, 2]
+    ∧ s.log = [.traced 1 2 3, .traced 0 2 3, .destroyed 1, .destroyed 0, .freed 1]
+    ∧ s.heap.map (fun ob => (ob.strong, ob.weak, ob.value.isSome, ob.freed))
+        = [(.uninit, 1, false, false), (.uninit, 0, false, true), (.cnt 1, 2, true, false)] := by
+  decide +kernel
+
+/-- `C05_weak_keeps_allocation` there: the Weak to the collected member keeps its allocation -/
+example : ((run weakObserveHistory).cell 0).isSome = true :=
+  C05_weak_keeps_allocation (run_reachable weakObserveHistory) weakObserveHistory_noErr
+    (by decide +kernel)
+
+/-- direction "destroyed ⇒ no handle": for the Weak to the collected member 0 the theorem gives an
+allocation whose value is gone, so `upgrade` does not hand out a handle -/
+example : (applyAct (run weakObserveHistory) [] [] (.upgrade 0)).roots
+    ≠ (run weakObserveHistory).roots ++ [0] := by
+  obtain ⟨ob, hc, hiff⟩ := C05_upgrade_iff_value_not_destroyed (run_reachable weakObserveHistory)
+    weakObserveHistory_noErr [] [] (w := 0) (o := 0) (by decide +kernel)
+  have h0 : (run weakObserveHistory).cell 0
+      = some { strong := .uninit, weak := 1, links := none, value := none, freed := false,
+               implicit := false } := by decide +kernel
+  rw [h0] at hc
+  cases hc
+  intro h
+  exact absurd (hiff.mp h) (by decide)
+
+/-- direction "not destroyed ⇒ handle": for the Weak to the survivor 2 the value is in place, so
+`upgrade` hands out a new strong handle to object 2 -/
+example : (applyAct (run weakObserveHistory) [] [] (.upgrade 1)).roots
+    = (run weakObserveHistory).roots ++ [2] := by
+  obtain ⟨ob, hc, hiff⟩ := C05_upgrade_iff_value_not_destroyed (run_reachable weakObserveHistory)
+    weakObserveHistory_noErr [] [] (w := 1) (o := 2) (by decide +kernel)
+  have h2 : (run weakObserveHistory).cell 2
+      = some { strong := .cnt 1, weak := 2, links := some [],
+               value := some { vid := 2, held := [], weaks := [], script := [], panics := false },
+               freed := false } := by decide +kernel
+  rw [h2] at hc
+  cases hc
+  exact hiff.mpr rfl
+
+/-- the same by evaluation, as the program observes it: `upgrade` of the first Weak returns `None`
+(`ret 0`), of the second `Some` (`ret 1`), and the dead object reports counts 0 / 0 -/
+example : (run (weakObserveHistory ++ [(.act (.upgrade 0), []), (.act (.upgrade 1), []),
+      (.act (.wcounts 0), [])])).log.drop 5 = [.ret 0, .ret 1, .ret 0, .ret 0] := by
+  decide +kernel
 
 end Cactus
